@@ -1,25 +1,27 @@
 (* Props/C15.v — property C15: every operation terminates on every reference-graph shape.
    Only the property theorems (closed by `exact`), non-vacuity examples and Print Assumptions.
 
-   What is proved here is the termination of the two loops of the implementation that are not structural:
-   the worklist of Cas._find_all_fs (used by to_xmi, to_json, typecheck, cas_to_comparable_text) and the inline FSList
-   walk.  The model runs them on explicit fuel; OutOfFuel is a distinct result, and the theorems exclude it for the
+   What is proved here is the termination of the three loops of the implementation that are not structural:
+   the worklist of Cas._find_all_fs (used by to_xmi, to_json, typecheck, cas_to_comparable_text), its inline FSList
+   walk, and the walk of the XMI writer over the nodes of a list stored inside its holder's element
+   (CasXmiSerializer._collect_list_elements: FSList and the lists of primitive values IntegerList / FloatList /
+   StringList, whose tails are ordinary references and can be cyclic just as well).  The model runs them on explicit fuel; OutOfFuel is a distinct result, and the theorems exclude it for the
    stated bound |heap|+1, for ALL schemas, heaps (cyclic or not, well-formed or not), seeds and both values of
    include_inlinable_arrays_and_lists.  The bound is linear in the number of feature structures: that is the
    "low-order polynomial" of the property as far as loop iterations go.
 
    PARTIAL by nature: the theorems bound loop iterations of the model.  Wall-clock / CPU time of the implementation is
-   measured by the deadline oracle of harness/props/C15.py (14 shapes x sizes n,2n,4n x 8 operations), not proved.
+   measured by the deadline oracle of harness/props/C15.py (19 shapes x sizes n,2n,4n x 8 operations), not proved.
 
    No theorem is stated (none would say anything) for:
    - hierarchy queries (subsumes, is_instance_of, is_primitive, descendants): in Schema.v the ancestor chain of every
      type is data (ti_anc), `isa` and `is_primitive` are membership tests on that finite list, hence total by
      construction; that the TypeSystem's recursive walks agree with these lists is C10's theorem, their cost on
      type trees 60 levels deep is measured by the deadline oracle;
-   - readers and writers, typecheck, select: in the models they are structural folds (map / fold_left / filter) over
-     the document or over the id-sorted list returned by find_all_fs, so Coq's guard condition is their termination
-     proof; there is nothing further to state. *)
-From Cassis Require Import Base Heap Schema Reach ReachProofs ReachSpec RefutedC15.
+   - readers and writers (apart from the list walk above), typecheck, select: in the models they are structural folds
+     (map / fold_left / filter) over the document or over the id-sorted list returned by find_all_fs, so Coq's guard
+     condition is their termination proof; there is nothing further to state. *)
+From Cassis Require Import Base Heap Schema Reach ReachProofs ReachSpec RefutedC15 ReachList ReachListProofs.
 Open Scope Z_scope.
 
 (* the worklist: never out of fuel with |heap|+1, whatever the graph *)
@@ -41,6 +43,31 @@ Print Assumptions C15_pops_bound.
 Theorem C15_list_walk_terminates : forall s h v, list_heads (S (List.length h)) s h [] v <> OutOfFuel.
 Proof. exact list_walk_terminates. Qed.
 Print Assumptions C15_list_walk_terminates.
+
+(* the list walk of the XMI writer, for every list kind: never out of fuel with |heap|+1, whatever the tail chain
+   (a node whose tail is itself, a tail leading back to any earlier node, a dangling tail) *)
+Theorem C15_list_collect_terminates : forall s h v, list_elems s h v <> OutOfFuel.
+Proof. exact collect_terminates. Qed.
+Print Assumptions C15_list_collect_terminates.
+
+(* the whole of to_xmi that is not a structural fold: traversal, then the list walks of everything found *)
+Theorem C15_to_xmi_lists_terminate : forall s c, to_xmi_lists s c <> OutOfFuel.
+Proof. exact to_xmi_lists_terminates. Qed.
+Print Assumptions C15_to_xmi_lists_terminate.
+
+(* it refuses (ValueError) exactly the lists in which some node stands at two positions of the tail chain ... *)
+Theorem C15_list_collect_refuses_exactly_cycles : forall s h v,
+  list_elems s h v = Err EValue <-> cyclic_chain s h v.
+Proof. exact collect_refuses_exactly_cycles. Qed.
+Print Assumptions C15_list_collect_refuses_exactly_cycles.
+
+(* ... and otherwise returns the head of the node at every position of the chain, in order: the values the traversal's
+   own walk offered to the open list *)
+Theorem C15_list_collect_returns_elements : forall s h v l, list_elems s h v = Ok l ->
+  (forall n, nth_error l n = option_map (fun p => slot (snd p) "head") (node_at s h n v)) /\
+  list_heads (S (List.length h)) s h [] v = Ok l.
+Proof. exact collect_returns_elements. Qed.
+Print Assumptions C15_list_collect_returns_elements.
 
 (* on well-formed heaps the traversal does not merely stop: it returns (or reports a forced duplicate id) *)
 Theorem C15_traversal_total : forall inl s c seeds,
@@ -89,6 +116,35 @@ Print Assumptions C15_old_loop_exponential.
 Theorem C15_old_list_walk_diverges_refuted : forall fuel, list_walk_old fuel sL wL (VRef 1%N) = OutOfFuel.
 Proof. exact list_walk_diverges_refuted. Qed.
 Print Assumptions C15_old_list_walk_diverges_refuted.
+
+(* without the node set the writer's walk runs out of every fuel on a one-node IntegerList whose tail is the node itself *)
+Theorem C15_unguarded_list_collect_diverges_refuted : forall fuel, collect_unguarded fuel sI hI (VRef 1%N) = OutOfFuel.
+Proof. exact collect_unguarded_diverges_refuted. Qed.
+Print Assumptions C15_unguarded_list_collect_diverges_refuted.
+
+(* non-vacuity of the list-walk theorems: a FloatList 1.5 -> 2.5 -> back to the first node held inline is refused, the
+   same holder with the list ending is written, and the elements are the heads in order *)
+Definition sPl : schema :=
+  [mkTi "t.H" ["t.H"; "uima.cas.TOP"] [mkFd "items" "items" "uima.cas.FloatList" None false];
+   mkTi "uima.cas.NonEmptyFloatList" ["uima.cas.NonEmptyFloatList"; "uima.cas.FloatList"; "uima.cas.ListBase"; "uima.cas.TOP"]
+        [mkFd "head" "head" "uima.cas.Float" None false; mkFd "tail" "tail" "uima.cas.FloatList" None true];
+   mkTi "uima.cas.EmptyFloatList" ["uima.cas.EmptyFloatList"; "uima.cas.FloatList"; "uima.cas.ListBase"; "uima.cas.TOP"] [];
+   mkTi "uima.cas.TOP" ["uima.cas.TOP"] []].
+Definition hPl (last_tail : oid) : heap :=
+  [(1%N, mkFs "t.H" None [("items", VRef 2%N)]);
+   (2%N, mkFs "uima.cas.NonEmptyFloatList" None [("head", VFlt "0x1.8000000000000p+0"); ("tail", VRef 3%N)]);
+   (3%N, mkFs "uima.cas.NonEmptyFloatList" None [("head", VFlt "0x1.4000000000000p+1"); ("tail", VRef last_tail)]);
+   (4%N, mkFs "uima.cas.EmptyFloatList" None [])].
+Definition cPl (last_tail : oid) : cas := mkCas [mkView (mkSofa 1 1 "_InitialView" None None None None) [1%N]] (hPl last_tail) 2.
+Example C15_list_collect_examples :
+  cyclic_chain sPl (hPl 2%N) (VRef 2%N) /\ to_xmi_lists sPl (cPl 2%N) = Err EValue /\
+  list_elems sPl (hPl 4%N) (VRef 2%N) = Ok [VFlt "0x1.8000000000000p+0"; VFlt "0x1.4000000000000p+1"] /\
+  to_xmi_lists sPl (cPl 4%N) = Ok tt.
+Proof.
+  split.
+  - exists 0%nat, 2%nat, 2%N. eexists. eexists. split; [lia|]. split; vm_compute; reflexivity.
+  - repeat split; vm_compute; reflexivity.
+Qed.
 
 (* non-vacuity: a graph with a reference cycle, a self reference, an inline FSArray holding the same structure twice and
    a null, and an inline FSList whose tail chain is cyclic and whose first head was visited before — the premises hold,
